@@ -294,6 +294,9 @@ def oracle(op: str, out: str):
                 return "OP_CODESEPARATOR stripping differs from SerializeScriptCode beyond the unwritten rest of a truncated push"
             if cut:
                 return "OP_CODESEPARATOR stripping differs from SerializeScriptCode"
+    if k == "c04_checksol" and out == "err TraceChanged":
+        return ("check_solution asked for other signature hashes than the consensus ones for this input (hash type / script code / "
+                "signature to remove of each check, in order): expected " + a[5][:200])
     if k == "c04_checksol" and out.startswith("ok"):
         coin, f, us, idx = a[1], parse_fields(a[2]), parse_us(a[3]), int(a[4])
         vals = [] if out[3:] == "~" else out[3:].split(",")
@@ -579,6 +582,26 @@ def gen(ctx, emit):
                         o = checksol_op(coin, tx, i)
                         if o:
                             emit(o)
+    # ---- one legacy script with TWO signature checks of the same hash type whose signatures are both pushed inside the script
+    # code: the message of each check is the script code with THAT signature removed (FindAndDelete), so the two differ; the
+    # expected trace is written down here, not harvested from the implementation (a digest cached per script would be reused)
+    from pycoin.encoding.sec import public_pair_to_sec
+    from pycoin.ecdsa.secp256k1 import secp256k1_generator as G0
+    from pycoin.satoshi import der as _der
+    for coin in COINS:
+        if coin in ("bch", "btg"):
+            continue      # fork-id coins take the BIP143 path for every script: no signature removal there
+        for ht in (1, 2, 3, 0x81) if (ctx.thorough or coin == "btc") else (rng.choice([1, 2, 3, 0x81]),):
+            pubA, pubB = (public_pair_to_sec(G0 * kk, compressed=True) for kk in S.KEYS[:2])
+            sigA = _der.sigencode_der(5, 7) + bytes([ht])
+            sigB = _der.sigencode_der(9, 11) + bytes([ht])
+            for spk in (S.push_data(sigA) + b"\x75" + S.push_data(sigB) + b"\x75" + S.push_data(pubA) + b"\xac\x75" + S.push_data(pubB) + b"\xac",
+                        S.push_data(sigB) + b"\x75" + S.push_data(pubA) + b"\xac\x75" + S.push_data(sigA) + b"\x75" + S.push_data(pubB) + b"\xac"):
+                f = (1, 0, [(bytes([0x41]) * 32, 0, S.push_data(sigB) + S.push_data(sigA), 0xFFFFFFFE, []), (bytes([0x42]) * 32, 1, b"", 7, [])],
+                     [(5000, P2PKH), (6000, b"\x51")])
+                us = [(9000, spk), (8000, P2PKH)]
+                trace = "legacy:%d:%s:%s,legacy:%d:%s:%s" % (ht, hx(spk), show_sigs([sigA]), ht, hx(spk), show_sigs([sigB]))
+                emit("c04_checksol %s %s %s 0 %s 0,1" % (coin, show_fields(f), show_us(us), trace), "two-checksigs-embedded-sigs")
     # ---- seeded random transactions
     LCH = [0, 0, 1, 2, 25, 0xFC, 0xFD, 0x100]
     OPS = [b"\x51", b"\xab", b"\xac", b"\x76", b"\x00", b"\x01\xab", b"\x02\xab\xab", b"\x4c\x01\xab", b"\x14" + b"\x33" * 20, S.push_data(SIG), b"\x4f", b"\xae"]
